@@ -11,6 +11,8 @@ import (
 	"github.com/form3tech-oss/f1/v2/internal/trigger/constant"
 	"github.com/form3tech-oss/f1/v2/internal/verifharness/hlib"
 	"github.com/form3tech-oss/f1/v2/internal/verifshim/vrand"
+	"github.com/form3tech-oss/f1/v2/internal/verifshim/vrt"
+	f1testing "github.com/form3tech-oss/f1/v2/pkg/f1/testing"
 )
 
 var now = time.Date(2024, 1, 1, 0, 0, 0, 0, time.UTC)
@@ -442,11 +444,124 @@ func passSuite() hlib.Suite {
 	}}
 }
 
+// runSuite: the sub-ticks as a run applies them, through every entry point that pairs a distributed rate function
+// with a tick length (the constant / staged / ramp builders of the CLI and the config-file stages of the same
+// modes): with a profile that asks for R per cycle, every full cycle of the run starts exactly R iterations, spread
+// over 100 ms sub-ticks (evenly for the regular distribution).
+func runSuite() hlib.Suite {
+	return hlib.Suite{Name: "whole-runs/cli-and-config-file-stages/iterations-per-cycle-and-per-sub-tick", Run: func(r *hlib.Rec) {
+		for _, entry := range []string{"cli", "file"} {
+			for _, mode := range []string{"constant", "staged", "ramp"} {
+				for _, dist := range []string{"regular", "random"} {
+					for _, f := range []time.Duration{200 * time.Millisecond, 500 * time.Millisecond, time.Second} {
+						for _, R := range []int{7, 40} {
+							if !r.Mine() {
+								continue
+							}
+							r.Eval()
+							var starts []int64
+							var setupAt int64
+							scn := func(*f1testing.T) f1testing.RunFn {
+								setupAt = vrt.Clock()
+								return func(*f1testing.T) { starts = append(starts, vrt.Clock()) }
+							}
+							var input string
+							var status vrt.Status
+							var detail string
+							if entry == "cli" {
+								args := []string{mode, "s", "--distribution", dist, "--jitter", "0", "--concurrency", "200", "--max-duration", "3s"}
+								switch mode {
+								case "constant":
+									args = append(args, "--rate", fmt.Sprintf("%d/%s", R, f))
+								case "staged":
+									args = append(args, "--stages", fmt.Sprintf("0s:%d,10s:%d", R, R), "--iterationFrequency", f.String())
+								case "ramp":
+									args = append(args, "--start-rate", fmt.Sprintf("%d/%s", R, f), "--end-rate", fmt.Sprintf("%d/%s", 2*R, f), "--ramp-duration", "10s")
+								}
+								input = "f1 run " + strings.Join(args, " ")
+								res := hlib.RunCLIScenario(args, time.Minute, scn)
+								status, detail = res.Status, res.Crash+res.Detail
+								if res.Err != nil {
+									detail += " err=" + res.Err.Error()
+									status = vrt.StCrash
+								}
+							} else {
+								stage := ""
+								switch mode {
+								case "constant":
+									stage = fmt.Sprintf("  mode: constant\n  rate: %d/%s\n", R, f)
+								case "staged":
+									stage = fmt.Sprintf("  mode: staged\n  stages: 0s:%d,10s:%d\n  iteration-frequency: %s\n", R, R, f)
+								case "ramp":
+									stage = fmt.Sprintf("  mode: ramp\n  start-rate: %d/%s\n  end-rate: %d/%s\n", R, f, 2*R, f)
+								}
+								doc := "scenario: s\nlimits:\n  max-duration: 5s\n  concurrency: 200\n  max-iterations: 0\n  ignore-dropped: true\nstages:\n- duration: 3s\n" + stage + "  jitter: 0\n  distribution: " + dist + "\n"
+								input = "config file: " + strings.ReplaceAll(doc, "\n", " | ")
+								rs := &hlib.RunSpec{Mode: "file", FileYAML: doc, Quiet: true, CompletionTimeout: time.Second, ScenarioFn: scn}
+								res := hlib.RunOnce(rs, -1, 0, time.Minute)
+								if res.BuildErr != nil {
+									r.Fail("C12/run-broken", "build", res.BuildErr.Error(), input)
+									continue
+								}
+								status, detail = res.Out.Status, res.Out.Crash+res.Out.Detail
+							}
+							r.SampleCase(input)
+							if status != vrt.StOK {
+								r.Fail("C12/run-broken", entry+"/"+mode, status.String()+": "+detail, input)
+								continue
+							}
+							n := int(f / (100 * time.Millisecond))
+							sub := map[int64]int{}
+							for _, t := range starts {
+								sub[(t-setupAt)/int64(100*time.Millisecond)]++
+							}
+							// full cycles inside the run: sub-ticks at 0, 100 ms, ... up to 2.9 s
+							for c := 0; (c+1)*n <= 29; c++ {
+								sum, mn, mx := 0, 1<<30, -1
+								for k := c * n; k < (c+1)*n; k++ {
+									v := sub[int64(k)]
+									sum += v
+									if v < mn {
+										mn = v
+									}
+									if v > mx {
+										mx = v
+									}
+								}
+								r.Step()
+								// what the profile asks for in this cycle: R, or for the ramp (R -> 2R over its duration: 10 s on the
+								// command line, the stage's 3 s in a config file) the interpolation at the cycle's start, to within 1
+								want, tol := R, 0
+								if mode == "ramp" {
+									rampDur := 10 * time.Second
+									if entry == "file" {
+										rampDur = 3 * time.Second
+									}
+									want, tol = R+int(int64(R)*int64(c)*int64(f)/int64(rampDur)), 1
+								}
+								if sum < want-tol || sum > want+tol {
+									r.Fail("C12/run-cycle-sum", cmp(sum, want), fmt.Sprintf("cycle %d (sub-ticks %d..%d of 100 ms): %d iterations started, the profile asks for %d per %s in that cycle", c, c*n, (c+1)*n-1, sum, want, f), input)
+									break
+								}
+								if dist == "regular" && mx-mn > 1 {
+									r.Fail("C12/run-even", "spread>1", fmt.Sprintf("cycle %d: between %d and %d iterations per sub-tick", c, mn, mx), input)
+									break
+								}
+							}
+							r.Distinct(fmt.Sprintf("%s %s %s %s", entry, mode, dist, f))
+						}
+					}
+				}
+			}
+		}
+	}}
+}
+
 func suites(tier string) []hlib.Suite {
 	if tier == "quick" {
-		return []hlib.Suite{regularSuite(100, 300, 1), regularSuite(30, 1_000_000, 331), regularRange(1001, 1024, 400, 1), hugeSuite(), varyingSuite(), randomSuite(4), passSuite(), triggerSuite(), longRunSuite(40_000_000)}
+		return []hlib.Suite{regularSuite(100, 300, 1), regularSuite(30, 1_000_000, 331), regularRange(1001, 1024, 400, 1), hugeSuite(), varyingSuite(), randomSuite(4), passSuite(), triggerSuite(), longRunSuite(40_000_000), runSuite()}
 	}
-	return []hlib.Suite{regularSuite(1000, 1500, 1), regularSuite(60, 20000, 7), regularSuite(12, 2_000_000, 997), regularSuite(12, 450_000_000, 99991), regularSuite(1000, 450_000_000, 9_999_991), regularRange(1001, 1100, 1000, 1), regularRange(1990, 2010, 1000, 1), hugeSuite(), varyingSuite(), randomSuite(5), passSuite(), triggerSuite(), longRunSuite(400_000_000)}
+	return []hlib.Suite{regularSuite(1000, 1500, 1), regularSuite(60, 20000, 7), regularSuite(12, 2_000_000, 997), regularSuite(12, 450_000_000, 99991), regularSuite(1000, 450_000_000, 9_999_991), regularRange(1001, 1100, 1000, 1), regularRange(1990, 2010, 1000, 1), hugeSuite(), varyingSuite(), randomSuite(5), passSuite(), triggerSuite(), longRunSuite(400_000_000), runSuite()}
 }
 
 func main() { hlib.EnumMain("C12", suites) }
